@@ -173,6 +173,21 @@ fn rank_class(vals: &[f64], full: usize) -> &'static str {
     }
 }
 
+/// Input-independent name of a panic for site keys (no line numbers, no values).
+fn panic_kind(pi: &mc::PanicInfo) -> &'static str {
+    if pi.is_overflow_check() {
+        "panic-overflow-check"
+    } else if pi.msg.contains("no convergence") {
+        "panic-svd-no-convergence"
+    } else if pi.msg.contains("Too many iterations") {
+        "panic-evd-too-many-iterations"
+    } else if pi.msg.contains("index") || pi.msg.contains("Index") {
+        "panic-index"
+    } else {
+        "panic"
+    }
+}
+
 type Transform<'a> = &'a dyn Fn(&DenseMatrix<f64>) -> Result<DenseMatrix<f64>, Failed>;
 
 /// The clauses about the transform as a row-wise map x -> (x − μ)·P (μ = 0 for truncated SVD):
@@ -321,8 +336,7 @@ pub fn check_pca(x: &Mat, corr: bool, k: usize, family: &str) {
     });
     let pca = match fit {
         Err(pi) => {
-            let cl = if pi.is_overflow_check() { "panic-overflow-check" } else { "panic" };
-            mc::violation(site("fit", cl), format!("{}: fit must succeed but {}", head(), pi.brief()));
+            mc::violation(site("fit", panic_kind(&pi)), format!("{}: fit must succeed but {}", head(), pi.brief()));
             return;
         }
         Ok(Err(e)) => {
@@ -502,8 +516,7 @@ pub fn check_tsvd(x: &Mat, k: usize, family: &str) {
     }
     let svd = match fit {
         Err(pi) => {
-            let cl = if pi.is_overflow_check() { "panic-overflow-check" } else { "panic" };
-            mc::violation(site("fit", cl), format!("{}: fit must succeed but {}", head(), pi.brief()));
+            mc::violation(site("fit", panic_kind(&pi)), format!("{}: fit must succeed but {}", head(), pi.brief()));
             return;
         }
         Ok(Err(e)) => {
